@@ -30,6 +30,16 @@ K6 = [
     for n in (1, 2, 3) for o in ("uv", "vu", "uw", "wu", "vw", "wv")
 ]
 
+K17 = [{"file": "k17_hilbert.rs", "harness": "k17_shift_then_unshift_is_identity", "kind": "full-domain",
+        "what": "real shift_digits: for every parent/child digit pair x 4 flip states x invert_j x both patterns, shifting with P and "
+                "then with reverse_pattern(P) restores the pair (complete: all 256 cases symbolic, no loop over inputs)"}] + [
+    {"file": "k17_hilbert.rs", "harness": "k17_round_trip_n%d_%s" % (n, o), "kind": "bounded",
+     "bound": "curve depth n = %d: every position s < 4^%d (symbolic), orientation %s" % (n, n, o),
+     "tiers": ("quick", "thorough") if n <= 3 else ("thorough",), "states": 4 ** n,
+     "what": "real f64 s_to_anchor / ij_to_s: the probe nudged strictly inside the lattice triangle of position s is located back at s; "
+             "k in 0..3 and flips in {YES, NO}"}
+    for n in (1, 2, 3, 4, 5) for o in ("uv", "vu", "uw", "wu", "vw", "wv")]
+
 STD_ASSUME = [
     "64-bit target: `global size_of usize == 8`",
     "get_origins(): OnceLock returns the value of generate_origins() (std contract); its table contract is "
@@ -195,6 +205,28 @@ PROPS = {
                       "two keys breaks the invariant or the result postcondition.",
         "technique": "Verus representation invariant + frame conditions on extracted real &mut self methods",
     },
+    "C17": {
+        "kani": K17,
+        "kani_jobs": 14,
+        "kani_timeout": 6000,
+        "level": "model_checking",
+        "assumptions": [
+            "the position <-> anchor round trip is a BOUNDED stand-in (curve depth n <= 3 quick, <= 5 thorough; all 4^n positions symbolic, "
+            "6 orientations), never counted as proved: an unbounded proof needs the real-valued invariant 'the probe stays in the current "
+            "sub-triangle at every level' over f64 code, which Verus cannot state (no float semantics)",
+            "CBMC is bit-precise for f64 + - * / and comparisons; no transcendental function occurs on this path",
+            "NOT decided: pentagon centres lie in the quintant triangle and the pentagon CENTRE maps back to s (irrational basis; "
+            "PENTAGON constants use cos/sin/atan2)",
+            "the digit-shift step is proved completely (full-domain harness k17_shift_then_unshift_is_identity)",
+        ],
+        "search_ops": ["reference"],
+        "level_text": "Kani/CBMC on the real f64 hilbert.rs: (complete) the digit-shift pass is undone by the reversed pattern for "
+                      "every digit pair, flip state, invert_j and both patterns; (bounded) for every curve position of depth n <= 3 "
+                      "(quick) / <= 5 (thorough) and each of the six orientations the lattice cell of position s is located back "
+                      "at s, hence positions map to pairwise distinct cells with none unused at those depths.",
+        "level_note": "Level model_checking because the deciding part for the bijection is bounded by curve depth; see assumptions.",
+        "technique": "Kani full-domain harness (digit shift) + bounded Kani harnesses over all positions of depth n (round trip)",
+    },
     "C18": {
         "kani": K3 + [K1],
         "kani_jobs": 14,
@@ -319,5 +351,5 @@ NOT_APPLICABLE = {
     "C19": "authalic series inverse/monotone/odd to 1e-12: Clenshaw sums of sin/cos over f64; out of reach",
  "C07": "not built yet", 
 "C10": "not built yet",  
-"C17": "not built yet (tier B)",  
+  
 }
